@@ -330,10 +330,18 @@ class ECDSAKey(PKey):
         else:
             self._got_bad_key_format_id(pkformat)
 
+        # The PEM container may hold any kind of key, on any curve.
+        if not isinstance(key, ec.EllipticCurvePrivateKey):
+            raise SSHException("not an EC private key")
+        curve_class = key.curve.__class__
+        ecdsa_curve = self._ECDSA_CURVES.get_by_curve_class(curve_class)
+        if ecdsa_curve is None:
+            raise SSHException(
+                "unsupported EC curve {}".format(key.curve.name)
+            )
         self.signing_key = key
         self.verifying_key = key.public_key()
-        curve_class = key.curve.__class__
-        self.ecdsa_curve = self._ECDSA_CURVES.get_by_curve_class(curve_class)
+        self.ecdsa_curve = ecdsa_curve
 
     def _sigencode(self, r, s):
         msg = Message()
